@@ -1606,10 +1606,15 @@ func (env *LEnv) funCall(ctx context.Context, fun, args *LVal) *LVal {
 	if npop > 0 {
 		mark := markTailRec(npop, fun, args)
 		mark.source = env.loc // the tail call's own call expression
+		// ... and the package it was written in: a builtin that resolves a
+		// name when it runs (funcall and apply given a symbol) must find what
+		// it would have found had the call not been collapsed.
+		mark.Str = env.Runtime.Package.Name
 		return mark
 	}
 
 	relocated := false
+	repackaged := false
 callf:
 	r := env.call(ctx, fun, args)
 	if r == nil {
@@ -1644,6 +1649,18 @@ callf:
 				defer func(loc *token.Location) { env.loc = loc }(env.loc)
 			}
 			env.loc = r.source
+			// Likewise the next turn runs with the package that was current
+			// at the tail call.  A lisp function switches to its own package
+			// in call(); a builtin runs in whatever package is current, and
+			// the frames between this one and the tail call, which may have
+			// switched it, have been unwound.
+			if pkg := env.Runtime.Registry.Package(r.Str); pkg != nil && pkg != env.Runtime.Package {
+				if !repackaged {
+					repackaged = true
+					defer func(pkg *Package) { env.Runtime.Package = pkg }(env.Runtime.Package)
+				}
+				env.Runtime.Package = pkg
+			}
 			// The frame is re-entered for the next turn, so it starts
 			// non-terminal, like a freshly pushed frame.  The previous turn
 			// left Terminal set (its last body form ran in tail position);
